@@ -50,10 +50,13 @@ Inductive job := JThen (body : list node) | JAsync (seg : list node).
 Inductive result := RNormal | RError (p : payload) | RHostPanic | RStuck.
 
 (* [AScen r evs]: an API call running a scripted scenario outside the tree language (a generator suspended inside
-   for-of inside try, closed by return()/throw() from a later call); only its SPECIFICATION is modelled: result [r],
-   effects [evs], every register and stack as before the call *)
+   for-of inside try, closed by return()/throw() from a later call; an async function awaiting another one whose
+   continuation fails); only its SPECIFICATION is modelled: result [r], effects [evs] (made before the pending jobs are
+   drained, or after them when [late]), every register and stack as before the call; like every outermost call it is
+   interrupted at once when the flag is set, drains the job queue when it ends normally or with a JS exception (inside
+   RunProgram's bottom context when [run], as runWrapped does otherwise), and drops it otherwise *)
 Inductive api := ARun (body : list node) | ACall (body : list node) | ATry (acts : list node) | AClear
-               | AScen (r : result) (evs : list nat).
+               | AScen (run late : bool) (r : result) (evs : list nat).
 
 Record ctx := mkCtx { c_prg : bool; c_stash : nat; c_sb : Z; c_args : Z }.
 
@@ -697,10 +700,25 @@ Definition of_go (r : state * outcome) : state * result :=
   | (s, _) => (s, RStuck)
   end.
 
+Definition scen_finish (run late : bool) (r : result) (evs : list nat) (lr : state * outcome) : state * result :=
+  let unw (x : state) := if run then top_fin x else x in
+  match lr with
+  | (s2, ONorm) => (unw (if late then set_log (log s2 ++ evs) s2 else s2), r)
+  | (s2, OPanic p) => if uncatchable_err p then (leave_abrupt (unw s2), RError p) else (set_jq [] (unw s2), RHostPanic)
+  | (s2, _) => (s2, RStuck)
+  end.
+
 Definition api_exec (lim : option nat) (faults : list (nat * fkind)) (fixed : bool) (fuel : nat) (a : api) (s : state) : state * result :=
   match a with
   | AClear => (set_intr false s, RNormal)
-  | AScen r evs => (set_log (log s ++ evs) s, r)
+  | AScen run late r evs =>
+      if intr s then (leave_abrupt s, RError PIntr) else
+      let s1 := if late then s else set_log (log s ++ evs) s in
+      match r with
+      | RNormal | RError PCatch =>
+          scen_finish run late r evs (leave lim faults fixed fuel (if run then set_cs (halt_ctx :: cs s1) s1 else s1))
+      | _ => (leave_abrupt s1, r)
+      end
   | ARun body => of_go (exec lim faults fixed fuel (NRun false body) s)
   | ACall body => of_go (exec lim faults fixed fuel (NCallable false body) s)
   | ATry acts =>
